@@ -31,7 +31,8 @@ CFG = {
             "instructions.go / gas_table.go / memory_table.go stack accesses (pop, peek, Back, dup, swap, data[len-k]) and memory accesses "
             "(Memory.Get/GetPtr/Set, store[i]) of every execute, gas and memory-size function":
                 "gen (go/ssa pass go/extract/cmd/vmaccess over the source: needed stack height per function and dereferenced memory ranges "
-                "in entry operands; refusal on any unrecognised shape; table_ok decides reads <= pops and ranges within memorySize)",
+                "in entry operands; every big.Int->int64/uint64 conversion with source, sinks and dominating check; refusal on any unrecognised shape; "
+                "table_ok decides reads <= pops and ranges within memorySize, convs_ok/helpers_ok decide the conversion classes)",
             "Interpreter.Run, enforceRestrictions, gas_table.go (all gas functions, memoryGasCost), gas.go callGas, memory_table.go, "
             "evm.go Call/CallCode/DelegateCall/StaticCall/Create/run, opCall*/opCreate gas plumbing":
                 "corr (per run: outcome class, leftover gas, step count, max depth, max memory, checksum over gas/cost/memory/depth/stack of "
@@ -58,7 +59,7 @@ META = {
                  "machine over the generated instruction tables, for all programs) tied to core/vm by T-gen tables and differential trace replay",
     "text": "Theorems nonhalting_costs_gas, run_terminates, gas_monotone, leftover_le_given_*, call_forwards_at_most_63_64, memory_paid*, "
             "frame_failure_reverts_call/create, static_no_write, static_call_preserves_view, writes_flag_complete, depth_le_1024, "
-            "no_modelled_panic, no_modelled_panic_stack_memory, stack_reads_within_validated_height, mem_access_in_bounds hold for every oracle (program, operands, state answers), world type, gas budget and epoch in the Lean model "
+            "no_modelled_panic, no_modelled_panic_stack_memory, conversions_guarded, modexp_alloc_bounded_by_gas, precompile_alloc_bounded_by_gas, stack_reads_within_validated_height, mem_access_in_bounds hold for every oracle (program, operands, state answers), world type, gas budget and epoch in the Lean model "
             "of Run and the five call wrappers; every run regenerates the instruction tables from the compiled core/vm, re-proves, executes ~2600 "
             "programs x 5 rule sets on the real EVM under a tracer, judges the property directly per frame and replays every trace in the model.",
     "note": GEN + " The bodies of the op* execute functions and the precompiles are not modelled: for them 'does not crash' is judged on the real "
